@@ -407,10 +407,22 @@ pub fn is_known<'a>(known: &'a [Known], prop: &str, sig: &str) -> Option<&'a Kno
     // every final-state mismatch it takes part in is that finding
     if prop == "C16" {
         if let Some(rest) = sig.strip_prefix("state|") {
-            let kinds = rest.strip_prefix("after-timeout:").unwrap_or(rest);
+            // state|[after-timeout:]A+B|differs:<aspects>  is covered by an entry  state|any:<Kind>|differs:<pattern>
+            let (kinds, differs) = rest.split_once("|differs:").unwrap_or((rest, ""));
+            let kinds = kinds.strip_prefix("after-timeout:").unwrap_or(kinds);
             for kind in kinds.split('+') {
-                let want = format!("state|any:{kind}");
-                if let Some(k) = known.iter().find(|k| k.prop == "C16" && k.sig == want) {
+                let prefix = format!("state|any:{kind}|differs:");
+                let fits = |pat: &str| -> bool {
+                    // `{a,b,c}`: every differing aspect is one of these; otherwise a glob
+                    match pat.strip_prefix('{').and_then(|p| p.strip_suffix('}')) {
+                        Some(list) => {
+                            let allowed: Vec<&str> = list.split(',').collect();
+                            !differs.is_empty() && differs.split('+').all(|a| allowed.contains(&a))
+                        }
+                        None => glob_match(pat, differs),
+                    }
+                };
+                if let Some(k) = known.iter().find(|k| k.prop == "C16" && k.sig.starts_with(&prefix) && fits(&k.sig[prefix.len()..])) {
                     return Some(k);
                 }
             }
